@@ -12,6 +12,9 @@ def pair : Handler := fun j => do
   let same := decide (PrefVerif.Spec.SameRanking a b)
   return obj [("kt", toJson (kendallTau? a b)), ("fr", toJson (footrule? a b)),
     ("se", toJson (sertel? a b)), ("same", toJson same),
+    ("ktn", match kendallTauNorm a b with
+      | .valueError => toJson "ValueError" | .zeroDivision => toJson "ZeroDivisionError"
+      | .ok n d => toJson (n, d)),
     ("dis", toJson (PrefVerif.Spec.dis a b a))]
 
 def asym (x y : List Nat) : Nat × Nat := (x.headD 0 * 1000 + y.headD 0 + 7 * x.length, 1)
